@@ -11,6 +11,12 @@ import NfpmModel.Lemmas.VersionLemmas
         verrevcmp  core~pre…  <  core, core+meta…, core-rev…   (deb, ipk)
     rpm_prerelease_sorts_before
         the same under rpm's rpmvercmp for  core~pre…  vs  core / core+meta
+    dpkg_numeric_order / dpkg_semver_order
+        two versions that share leading numeric components and then carry d1 < d2 (as numbers:
+        `decVal`, leading zeros and any length allowed) compare as "less" under verrevcmp, whatever follows
+    dpkg_epoch_dominates / dpkg_epoch_over_none
+        a lower epoch sorts first under dpkg's whole comparison whatever the version strings are;
+        no epoch sorts before every positive epoch
     deb_version_shape / rpm_version_shape
         the strings nfpm renders have exactly that shape (tie to the renderers)
   Specification assumption: `verrevcmpF` / `rpmvercmpF` transcribe dpkg's lib/dpkg/version.c
@@ -235,6 +241,138 @@ theorem dpkg_compare_prerelease_epoch (e : Bytes) (he : colon ∉ e) (runs : Lis
   exact h
 
 example : dpkgCompare (b!"2:1.2.3~rc-1+git-4") (b!"2:1.2.3+git-4") < 0 := by decide
+
+/-! ### dpkg: numeric order of the components, epochs -/
+
+/-- a remainder that does not continue a digit run: the end, or a non-digit (dot, '~', '+', '-', …) -/
+def NoDigitHead (A : Bytes) : Prop := A = [] ∨ ∃ c t, A = c :: t ∧ isDigit c = false
+
+theorem takeWhile_digits_stop (d A : Bytes) (hd : ∀ x ∈ d, isDigit x = true) (hA : NoDigitHead A) :
+    (d ++ A).takeWhile isDigit = d ∧ (d ++ A).dropWhile isDigit = A := by
+  rcases hA with e | ⟨c, t, e, hc⟩
+  · subst e; simp only [List.append_nil]; exact ⟨takeWhile_all isDigit _ hd, dropWhile_all isDigit _ hd⟩
+  · subst e; exact ⟨takeWhile_append_stop isDigit _ c t hd hc, dropWhile_append_stop isDigit _ c t hd hc⟩
+
+/-- two different numbers at the same position decide the comparison -/
+theorem verrevcmpF_digits_differ (f : Nat) (d1 d2 : Bytes) (h1 : DigitRun d1) (h2 : DigitRun d2) (A B : Bytes)
+    (hA : NoDigitHead A) (hB : NoDigitHead B) (hne : cmpDigits d1 d2 ≠ 0) :
+    verrevcmpF (f + 1) (d1 ++ A) (d2 ++ B) = cmpDigits d1 d2 := by
+  obtain ⟨ta, tb⟩ := takeWhile_digits_stop d1 A h1.2 hA
+  obtain ⟨ta2, tb2⟩ := takeWhile_digits_stop d2 B h2.2 hB
+  obtain ⟨c1, r1, e1, hc1⟩ := h1.head_digit
+  obtain ⟨c2, r2, e2, hc2⟩ := h2.head_digit
+  rw [verrevcmpF]
+  have hh1 : (d1 ++ A).head? = some c1 := by subst e1; rfl
+  have hh2 : (d2 ++ B).head? = some c2 := by subst e2; rfl
+  have hn1 : (d1 ++ A = []) = False := by subst e1; simp
+  simp only [hh1, hh2, hc1, hc2, ta, tb, ta2, tb2, hn1, Bool.not_true, Bool.or_self, Bool.false_eq_true, if_false,
+    decide_false, Bool.false_and, ne_eq, hne, not_false_eq_true, if_true]
+
+/-- numeric components joined each with its dot: `1.2.` -/
+def dotted : List Bytes → Bytes
+  | [] => []
+  | p :: ps => p ++ dot :: dotted ps
+
+theorem dotted_length (ps : List Bytes) : ps.length ≤ (dotted ps).length := by
+  induction ps with
+  | nil => simp [dotted]
+  | cons p ps ih => simp only [dotted, List.length_append, List.length_cons]; omega
+
+theorem verrevcmpF_dotted (ps : List Bytes) (hps : ∀ d ∈ ps, DigitRun d) (f : Nat) (X Y : Bytes) :
+    verrevcmpF (f + 2 * ps.length) (dotted ps ++ X) (dotted ps ++ Y) = verrevcmpF f X Y := by
+  induction ps generalizing f with
+  | nil => simp [dotted]
+  | cons p ps ih =>
+    have := verrevcmpF_digits_dot (f + 2 * ps.length) p (hps p (by simp)) (dotted ps ++ X) (dotted ps ++ Y)
+    simp only [dotted, List.length_cons, List.append_assoc, List.cons_append]
+    rw [show f + 2 * (ps.length + 1) = f + 2 * ps.length + 2 by omega, this]
+    exact ih (fun d hd => hps d (List.mem_cons_of_mem _ hd)) f
+
+/-- **deb / ipk: a different major.minor.patch orders numerically** under dpkg's own comparison: two versions
+    that share any number of leading numeric components and then carry the numbers `d1 < d2` compare as
+    "less", whatever follows (further components, `~prerelease`, `+metadata`, `-revision`) -/
+theorem dpkg_numeric_order (ps : List Bytes) (hps : ∀ d ∈ ps, DigitRun d) (d1 d2 : Bytes) (h1 : DigitRun d1)
+    (h2 : DigitRun d2) (A B : Bytes) (hA : NoDigitHead A) (hB : NoDigitHead B) (hlt : decVal d1 < decVal d2) :
+    verrevcmp (dotted ps ++ (d1 ++ A)) (dotted ps ++ (d2 ++ B)) < 0 := by
+  have hnum := (cmpDigits_numeric d1 d2 h1.2 h2.2).1.mpr hlt
+  unfold verrevcmp
+  have hl := dotted_length ps
+  obtain ⟨f, hf⟩ : ∃ f, (dotted ps ++ (d1 ++ A)).length + (dotted ps ++ (d2 ++ B)).length + 1 = (f + 1) + 2 * ps.length :=
+    ⟨(dotted ps ++ (d1 ++ A)).length + (dotted ps ++ (d2 ++ B)).length - 2 * ps.length, by
+      simp only [List.length_append]; omega⟩
+  rw [hf, verrevcmpF_dotted ps hps, verrevcmpF_digits_differ f d1 d2 h1 h2 A B hA hB (by omega)]
+  exact hnum
+
+/-- the three cases of a semantic version: major, minor or patch differs -/
+theorem dpkg_semver_order (M1 m1 p1 M2 m2 p2 A B : Bytes)
+    (hM1 : DigitRun M1) (hm1 : DigitRun m1) (hp1 : DigitRun p1) (hM2 : DigitRun M2) (hm2 : DigitRun m2)
+    (hp2 : DigitRun p2) (hA : NoDigitHead A) (hB : NoDigitHead B)
+    (hlt : decVal M1 < decVal M2 ∨ (M1 = M2 ∧ decVal m1 < decVal m2) ∨ (M1 = M2 ∧ m1 = m2 ∧ decVal p1 < decVal p2)) :
+    verrevcmp (M1 ++ dot :: m1 ++ dot :: p1 ++ A) (M2 ++ dot :: m2 ++ dot :: p2 ++ B) < 0 := by
+  have hdot : ∀ X : Bytes, NoDigitHead (dot :: X) := fun X => Or.inr ⟨dot, X, rfl, isDigit_dot⟩
+  rcases hlt with h | ⟨e, h⟩ | ⟨e, e', h⟩
+  · have := dpkg_numeric_order [] (by simp) M1 M2 hM1 hM2 (dot :: m1 ++ dot :: p1 ++ A) (dot :: m2 ++ dot :: p2 ++ B)
+      (hdot _) (hdot _) h
+    simpa [dotted] using this
+  · subst e
+    have := dpkg_numeric_order [M1] (by simpa using hM1) m1 m2 hm1 hm2 (dot :: p1 ++ A) (dot :: p2 ++ B)
+      (hdot _) (hdot _) h
+    simpa [dotted] using this
+  · subst e; subst e'
+    have := dpkg_numeric_order [M1, m1] (by intro d hd; simp at hd; rcases hd with r | r <;> (subst r; assumption))
+      p1 p2 hp1 hp2 A B hA hB h
+    simpa [dotted] using this
+
+example : verrevcmp (b!"1.9.0") (b!"1.10.0~rc1") < 0 := by decide
+
+/-! ### epochs -/
+
+theorem dpkgSplit_epoch_fst (e rest : Bytes) (he : colon ∉ e) : (dpkgSplit (e ++ colon :: rest)).1 = e := by
+  unfold dpkgSplit
+  have h1 : (e ++ colon :: rest).contains colon = true := by simp
+  have hd : ∀ x ∈ e, (x != colon) = true := by
+    intro x hx; simp only [bne_iff_ne, ne_eq]; intro e'; subst e'; exact he hx
+  simp only [h1, if_true]
+  rw [takeWhile_append_stop (fun x => x != colon) _ colon _ hd (by simp)]
+  split <;> rfl
+
+theorem dpkgSplit_noepoch_fst (s : Bytes) (hs : colon ∉ s) : (dpkgSplit s).1 = [] := by
+  unfold dpkgSplit
+  simp only [contains_false_of_not_mem s colon hs, Bool.false_eq_true, if_false]
+  split <;> rfl
+
+theorem dpkgCompare_epoch (a b : Bytes) (h : cmpDigits (dpkgSplit a).1 (dpkgSplit b).1 < 0) :
+    dpkgCompare a b < 0 := by
+  unfold dpkgCompare
+  rcases ha : dpkgSplit a with ⟨ea, ua, ra⟩
+  rcases hb : dpkgSplit b with ⟨eb, ub, rb⟩
+  rw [ha, hb] at h
+  simp only [] at h ⊢
+  have : cmpDigits ea eb ≠ 0 := by omega
+  simp only [ne_eq, this, not_false_eq_true, if_true]
+  exact h
+
+/-- **deb / ipk: any higher epoch sorts after any lower one**, whatever the two version strings are -/
+theorem dpkg_epoch_dominates (e1 e2 r1 r2 : Bytes) (hd1 : ∀ x ∈ e1, isDigit x = true)
+    (hd2 : ∀ x ∈ e2, isDigit x = true) (hlt : decVal e1 < decVal e2) :
+    dpkgCompare (e1 ++ colon :: r1) (e2 ++ colon :: r2) < 0 := by
+  have hc : ∀ e : Bytes, (∀ x ∈ e, isDigit x = true) → colon ∉ e := by
+    intro e he hm; have := he colon hm; revert this; decide
+  apply dpkgCompare_epoch
+  rw [dpkgSplit_epoch_fst _ _ (hc e1 hd1), dpkgSplit_epoch_fst _ _ (hc e2 hd2)]
+  exact (cmpDigits_numeric e1 e2 hd1 hd2).1.mpr hlt
+
+/-- … and a version without epoch (nfpm writes none when the epoch is empty) sorts before every version with a
+    positive epoch -/
+theorem dpkg_epoch_over_none (s e r : Bytes) (hs : colon ∉ s) (hd : ∀ x ∈ e, isDigit x = true) (hpos : 0 < decVal e) :
+    dpkgCompare s (e ++ colon :: r) < 0 := by
+  have hc : colon ∉ e := by intro hm; have := hd colon hm; revert this; decide
+  apply dpkgCompare_epoch
+  rw [dpkgSplit_noepoch_fst s hs, dpkgSplit_epoch_fst _ _ hc]
+  exact (cmpDigits_numeric [] e (by simp) hd).1.mpr (by simpa [decVal] using hpos)
+
+example : dpkgCompare (b!"9.9.9-1") (b!"1:0.0.1~rc1-1") < 0 := by decide
+example : dpkgCompare (b!"2:9.9.9-1") (b!"10:0.0.1-1") < 0 := by decide
 
 /-! ### rpm: rpmvercmp -/
 
